@@ -798,6 +798,8 @@ MUTANTS = [
     M('both-cb-and-acc', F, "            self.command[2](line)\n\n        else:\n            self.response += (line + '\\n')", "            self.command[2](line)\n        self.response += (line + '\\n')", ['R01.8']),
 ]
 TWINS = [
+    M('deque-queue', F, ["from warnings import warn\n", "        self.commands = []       # queued commands", "            self.command = self.commands.pop(0)", "        outstanding = [self.command] + self.commands if self.command else self.commands", "        self.defer = None\n        self.commands = []\n"], ["from warnings import warn\nfrom collections import deque\n", "        self.commands = deque()  # queued commands", "            self.command = self.commands.popleft()", "        outstanding = [self.command] + list(self.commands) if self.command else list(self.commands)", "        self.defer = None\n        self.commands = deque()\n"]),
+    M('truthy-queue-test', F, "        if len(self.commands):\n            self.command = self.commands.pop(0)", "        if self.commands:\n            self.command = self.commands.pop(0)"),
     M('join-payload', F, "data = cmd + b'\\r\\n'", "data = b''.join([cmd, b'\\r\\n'])"),
     M('append-bound-first', F, "        self.commands.append((d, cmd, arg))", "        entry = (d, cmd, arg)\n        self.commands.append(entry)"),
     M('guard-is-not-none', F, "        if self.command:\n            return\n", "        if self.command is not None:\n            return\n"),
